@@ -58,6 +58,8 @@ def lookup(p):  # noqa: C901, PLR0911, PLR0912
         if n < 2:
             return (False, {})
         sf = p[1]
+        if sf > 0x7F:  # a response never carries the suppress bit: malformed, not an unknown sub-function
+            return (False, {})
         if sf in (1, 2):
             ok = n == 4
             return (ok, {"dynamically_defined_data_identifier": u(p, 2, 2)} if ok else {})
@@ -82,6 +84,8 @@ def lookup(p):  # noqa: C901, PLR0911, PLR0912
         if n < 2:
             return (False, {})
         sf = p[1]
+        if sf > 0x7F:  # a response never carries the suppress bit: malformed, not an unknown sub-function
+            return (False, {})
         if sf in TYPE0:
             ok = n == 6 and p[3] <= 3
             return (ok, {"dtc_status_availability_mask": p[2], "dtc_format_identifier": p[3], "dtc_count": u(p, 4, 2)} if ok else {})
@@ -103,6 +107,8 @@ def lookup(p):  # noqa: C901, PLR0911, PLR0912
         if n < 2:
             return (False, {})
         sf = p[1]
+        if sf > 0x7F:  # a response never carries the suppress bit: malformed, not an unknown sub-function
+            return (False, {})
         if sf in (1, 2, 3):
             ok = n >= 4
             return (ok, {"routine_control_type": sf, "routine_identifier": u(p, 2, 2), "routine_status_record": p[4:]} if ok else {})
